@@ -1,4 +1,5 @@
 import BeffVerif.Props.C15
+import BeffVerif.Props.C15Decl
 open BeffVerif.C15
 #print axioms define_uniq
 #print axioms describeRT_uniq
@@ -6,3 +7,7 @@ open BeffVerif.C15
 #print axioms mixed_index_object_text
 #print axioms quoted_keys_and_bigint
 #print axioms recursive_type_text
+#print axioms BeffVerif.C15.describeRT_keeps
+#print axioms BeffVerif.C15.shared_ref_declared
+#print axioms BeffVerif.C15.declared_stays
+#print axioms BeffVerif.C15.describe_marks_cleared
